@@ -31,6 +31,7 @@ from ..impl import c16_interp as ci
 from ..translate import c16 as tr
 
 PROPERTY = "C16"
+CASE_TIMEOUT = 300  # s of wall clock per case in pool workers (runner watchdog): a case that spins forever is a verdict, not exit 2
 THEOREM_MODULE = "NemoVerif.Theorems.C16"
 RULE = ("e2e: every subset of {input, dialog, retrieval, output} (+ the call without options) x configurations with 0-2 input / 0-2 output / "
         "0-1 retrieval rails (declared as flow or subflow, refusal or rails-exception mode, three dialog behaviours) x rule tables whose "
